@@ -211,6 +211,11 @@ func (r *Report) finish(verifDir string, start time.Time, seed int) int {
 			os.Remove(f)
 		}
 	}
+	if os.Getenv("KCPVERIF_DUMP_OBS") != "" {
+		for _, o := range r.Obs {
+			fmt.Printf("OB %-10s %-8s %-34s %-16s %s :: %s\n", o.Rule, o.Status, o.Func, o.Pos, o.Construct, o.Detail)
+		}
+	}
 	knownPrinted := map[string]bool{}
 	vi := 0
 	for _, o := range r.Obs {
